@@ -7,7 +7,7 @@ Driver for C16: replays the harness' operations on the density-grid model.
   case <k>                                  -> case <k>
   regions <binSize> (<minX> <maxX> <minY> <maxY>)*   -> grid dump (limx / limy / cap / total)
   circuit … end  (Driver.circuitLine)       -> (nothing)
-  ispd <sfMant> <sfExp> <smMant> <smExp>    -> margins + grid dump + demands  (fromIspdCircuit)
+  ispd <sfMant> <sfExp> <smMant> <smExp>    -> margins + `rowsdom <RowsDom c>` + grid dump + demands  (fromIspdCircuit)
   subdiv <min> <max> <n>                    -> subdiv l0 l1 …
   hplace <d0> <d1> …                        -> hierarchy dump + allocation dump + view dump
   refineX|refineY|coarsenX|coarsenY         -> allocation dump + view dump
@@ -147,7 +147,8 @@ def step (s : St) (ws : List String) : St × List String :=
     let h := minCellHeight s.circ
     let g := DGrid.fromIspdCircuit s.circ (int! a) (int! b) (int! c) (int! d)
     ({ s with grid := g },
-      [s!"ispd {h} {floatMulTrunc (int! a) (int! b) h} {floatMulTrunc (int! c) (int! d) h}"] ++ dumpGrid g ++
+      [s!"ispd {h} {floatMulTrunc (int! a) (int! b) h} {floatMulTrunc (int! c) (int! d) h}",
+       s!"rowsdom {if decide (RowsDom s.circ) then 1 else 0}"] ++ dumpGrid g ++
       [line "demands" (showInts (circuitDemands s.circ))])
   | "hplace" :: ds =>
     let hs := HState.init s.grid (ints ds)
@@ -196,7 +197,7 @@ def step (s : St) (ws : List String) : St × List String :=
         ({ s with hs := hs, sched := more }, "pcall ok" :: out)
       else ({ s with sched := [] }, ["pcall MISMATCH the schedule expects: " ++ renderLogged c])
     | _, _ => (s, ["pcall MISMATCH the schedule expects no further call"])
-  | ["endpass"] => ({ s with sched := [] }, s!"endpass {s.sched.length}" :: dumpAlloc s.hs)
+  | ["endpass"] => ({ s with sched := [] }, s!"endpass {s.sched.length}" :: (dumpAlloc s.hs ++ dumpView s.hs))
   | "snap" :: rest =>
     match sections rest with
     | [[lx, ly], bins, cbx, cby] =>
